@@ -228,7 +228,15 @@ def r_add(a, b):
         sp = a if is_special(a) else b
         return float(sp)  # finite + inf = inf, + nan = nan
     x, y = _coerce2(a, b)
-    return wrap(x + y)
+    return _track_int(wrap(x + y))
+
+
+def _track_int(v):
+    """remember symbolic Int results so a harness can demand that they fit NumPy's int64"""
+    ex = _CUR[0]
+    if ex is not None and ex.track_int64 and isinstance(v, z3.ExprRef) and v.sort() == z3.IntSort():
+        ex.int_results.append(v)
+    return v
 
 
 def r_neg(a):
@@ -264,7 +272,7 @@ def r_mul(a, b):
     x, y = _coerce2(a, b)
     if sa and sb and _CUR[0] is not None and _CUR[0].defer_nonlinear:
         return _deferred("mul", x, y, lambda v: v == x * y, sort=x.sort())
-    return wrap(x * y)
+    return _track_int(wrap(x * y))
 
 
 def _deferred(tag, x, y, definition, sort=None):
@@ -933,6 +941,8 @@ class Explorer:
         self.inputs_rng = []
         self.defs = []       # deferred nonlinear definitions (added to obligation queries only)
         self._pc_ids = set()
+        self.track_int64 = False
+        self.int_results = []
 
     def _pop_all(self):
         while self.levels:
